@@ -250,7 +250,7 @@ def grep(ctx, shard, nshards):
     from ..core import excluded_classes
     known = excluded_classes("C17")
     it = 0
-    budget = 450 if not ctx.thorough else 6000
+    budget = 1200 if not ctx.thorough else 8000
     while it < budget:
         base = rnd.choice(B) if rnd.random() < 0.5 else rnd.randrange(R.NMIN + 500, R.NMAX - 500)
         base = max(R.NMIN + 500, min(R.NMAX - 500, base))
@@ -297,7 +297,7 @@ def informats(ctx, shard, nshards):
     V = Viol(sub, "C17")
     rnd = random.Random(ctx.sub_seed("c17f", shard))
     B = boundary()
-    for it in range(60 if not ctx.thorough else 1500):
+    for it in range(150 if not ctx.thorough else 2000):
         k = rnd.choice((1, 2, 3, 8, 15, 16, 16, 17, 24))
         seps = rnd.sample(SEPS_F, k)
         real_compact = rnd.random() < 0.5
